@@ -13,7 +13,6 @@ import (
 	"strings"
 	"time"
 
-	"github.com/gorilla/mux"
 	"github.com/gorilla/websocket"
 	"github.com/inbucket/inbucket/v3/pkg/extension"
 	"github.com/inbucket/inbucket/v3/pkg/extension/event"
@@ -245,7 +244,7 @@ func runC15(c *Ctx, cs Case) {
 		panic(err)
 	}
 	mgr := &message.StoreManager{AddrPolicy: &policy.Addressing{Config: root}, Store: st, ExtHost: eh}
-	web.Router = mux.NewRouter()
+	web.Router = web.NewRouter()
 	rest.SetupRoutes(web.Router.PathPrefix("/api/").Subrouter())
 	web.NewServer(root, mgr, hub)
 
